@@ -445,7 +445,7 @@ func genC03(g *Gen) {
 	// (2b) scale: long argument lists, deep nesting, long chains, long templates; rare code points; keywords in odd letters
 	vs := anyL(c03assignments[1])
 	rep := func(s string, k int) string { return strings.Repeat(s, k) }
-	for _, k := range []int{8, 9, 16, 17, 31, 32, 33, 34, 40, 63, 64, 65, 100, 127, 128, 129, 255, 256, 257, 1000, 1025} {
+	for _, k := range g.WithRandomSizes([]int{8, 9, 16, 17, 31, 32, 33, 34, 40, 63, 64, 65, 100, 127, 128, 129, 255, 256, 257, 1000, 1025}, g.Pick(4, 30), 2, g.Pick(260, 2000)) {
 		if k > g.Pick(260, 2000) {
 			continue
 		}
